@@ -14,9 +14,18 @@ for _q in ('core.wl.object.ObjectBase.__init__', 'core.wl.object.ResolvedObject.
     def _(c): c.inline()
 
 
+def _gen_obj(rnd):
+    from core import wl
+    o = rnd.choice([wl.UnresolvedObject(5, 'a'), wl.ResolvedObject(None, rnd.choice([0.0, 1.25, 7.5]), None, 3, 0, 'wl_surface')])
+    if rnd.random() < 0.6:
+        o.destroy_time = rnd.choice([0.5, 3.0, 9.75])
+    return (o,)
+
+
 @contract('core.wl.object.ObjectBase.destroy')
 def _(c):
     c.prop('C03')
+    c.native_gen(lambda rnd: _gen_obj(rnd) + (rnd.choice([0.0, 2.5, 11.0]),))
     c.ensures('self.alive == False and self.destroy_time == time', 'dead_at_time')
     c.modifies('self.alive', 'self.destroy_time')
 
@@ -27,6 +36,7 @@ def _(c):
     c.ensures('(result is None) == (self.create_time is None or self.destroy_time is None)', 'none_iff_a_time_is_unknown')
     c.ensures('result is None or result == self.destroy_time - self.create_time', 'destroy_minus_create')
     c.epoch_preserving()
+    c.native_gen(_gen_obj)
 
 
 @contract('core.wl.object.ObjectBase.__str__')
@@ -81,6 +91,7 @@ def _(c):
     c.trusted('C05 layer L: returns a new string matcher for the pattern (glob semantics)')
     c.returns('Obj("core.matcher.Matcher")')
     c.ensures('fresh(result)')
+    c.ensures('all(result.matches(t) == glob(pattern, t) for t in strs())', 'glob_semantics')
     c.modifies('new')
     c.epoch_preserving()
 
@@ -89,10 +100,9 @@ def _(c):
 def _(c):
     c.prop('C02', 'C03')
     c.requires('inv_conn(self) and generation == -1', 'latest_incarnation_is_asked_for')
-    c.raises('RuntimeError', when='id not in self.db', exact=False)
-    c.raises('RuntimeError', when='type_name is not None and id in self.db and self.db[id][len(self.db[id]) - 1].type is not None', exact=False)
+    c.raises('RuntimeError', when='id not in self.db or (type_name is not None and self.db[id][len(self.db[id]) - 1].type is not None and '
+                                  'not glob(type_name, self.db[id][len(self.db[id]) - 1].type))')
     c.ensures('id in self.db and result is self.db[id][len(self.db[id]) - 1]', 'latest_incarnation_of_the_id')
-    c.ensures('type_name is None or result.type is None or True', 'type_checked')
     c.modifies('new')
     c.epoch_preserving()
     c.native_gen(_gen_retrieve)
